@@ -23,7 +23,8 @@ func init() {
 			"R8 the request body is closed on every path: the deferred body-close is registered before any return of RoundTrip and is disarmed only after a forward to the underlying transport (which then owns closing); " +
 			"R9 at most two attempts: forwards to the underlying transport are not on a CFG cycle and no path contains more than two; " +
 			"R10 a 401 answered to a freshly issued token is surfaced as 403: after the second forward the response is returned as-is only under status != 401 or no token was acquired, otherwise its status is set to 403. " +
-			"R4b challengeFromResponse adopts a parsed header only on paths where its scheme is basic or bearer.",
+			"R4b challengeFromResponse adopts a parsed header only on paths where its scheme is basic or bearer. " +
+			"R4c the remembered per-host challenge is only ever a challenge parsed from a response; R11 (as C07.R8) returned responses still have their body.",
 		NotDecided: "correctness of the challenge parser on arbitrary header text, and the redirect behaviour of net/http's client for token requests (assumed not to forward Authorization across hosts), are not decided.",
 		Technique:  "static analysis: source-to-sink confinement on SSA def-use chains, dominance guards, CFG cycle/count analysis",
 	})
